@@ -32,7 +32,7 @@ def run(ctx):
         res = sysmon.st.run_swap_histories(sysmon.sysroot(ctx, 'c12'), 'c12', ctx.seed * 23, 4 if ctx.quick() else 40, 10 if ctx.quick() else 25)
         sysmon.feed(ctx, res, findings, 'system compiler swaps')
     ctx.rules.append('h_memo: histories of 2-7 requests with the file at the compiler path replaced (4 contents x 3 mtimes, incl. restored mtimes), touched or left alone; non-trivial = content swaps; '
-                     'system: 3 wrapper compilers swapped by copy+fresh mtime or symlink retargeting between requests on a live server')
+                     'h_memo phase 2: gcc / g++ / cc as links to one multicall wrapper and a different file called gcc, requested in random order on one server: every request keyed as on a fresh server (memoisation is transparent); system: 3 wrapper compilers swapped by copy+fresh mtime or symlink retargeting between requests on a live server')
     ctx.assumptions += ['the hypothesis of the statement: binaries with equal mtime at a path have equal contents (memo_stale_witness shows what happens otherwise)']
 
 def replay(ctx, path):
